@@ -128,6 +128,9 @@ pub enum Via {
     Armor,
     /// full NMEA sentence through `AisParser::parse(line, true)`
     Line,
+    /// raw buffer handed to the per-type `AisMessageType::parse` of the announced type (the other
+    /// public decoding route); falls back to `Raw` for type values without a message struct
+    Direct,
     /// 2..5 in-order fragments, each line dressed independently (talker, VDM/VDO, delimiter,
     /// tag block, channel, leading zeros, non-final fill counts, decode flag of non-final lines),
     /// inert lines in between: by C05 the result must be the unfragmented decode
@@ -244,6 +247,12 @@ pub fn run_message_mask(
             let buf = bits.to_bytes();
             let view = Bits::from_bytes(&buf);
             let call = mon::call_message(&buf);
+            (view, call, mon::replay_message(&buf, ctxname))
+        }
+        Via::Direct => {
+            let buf = bits.to_bytes();
+            let view = Bits::from_bytes(&buf);
+            let call = mon::call_message_direct(&buf).unwrap_or_else(|| mon::call_message(&buf));
             (view, call, mon::replay_message(&buf, ctxname))
         }
         Via::Armor => {
